@@ -143,13 +143,14 @@ def shapes(tier='quick'):
                         I(f"{base}\nk = _conc(k, 1, 6)\nreturn _compile(lambda: sp.Repeat(sp.CrossBlock([A, B, C], [A, B], [sp.{kind}(k, (C, 'c0'))]), "
                           f"[sp.MinimumTrials(7)]))"),
                         I('return 1 <= k <= 6'), ok, info={'shape': f'Repeat(CrossBlock + {kind}(k), MinimumTrials(7))'}))
+    pr = 7 if tier == 'thorough' else 5     # the block has 4 trials: both ranges cover both out-of-range sides
     out.append(Case('pin', 'i: int',
-                    I(f"{base}\ni = _conc(i, -7, 7)\nreturn _compile(lambda: sp.CrossBlock([A, B, C], [A, B], [sp.Pin(i, (C, 'c0'))]))"),
-                    I('return -7 <= i <= 7'), ok, info={'shape': 'CrossBlock + Pin(i)'}))
+                    I(f"{base}\ni = _conc(i, -{pr}, {pr})\nreturn _compile(lambda: sp.CrossBlock([A, B, C], [A, B], [sp.Pin(i, (C, 'c0'))]))"),
+                    I(f'return -{pr} <= i <= {pr}'), ok, info={'shape': 'CrossBlock + Pin(i)', 'range': pr}))
     out.append(Case('mintrials', 'n: int',
-                    I("A = sp.Factor('A', [sp.Level('a0', 2), 'a1']); B = sp.Factor('B', ['b0', 'b1'])\nn = _conc(n, 0, 9)\n"
+                    I(f"A = sp.Factor('A', [sp.Level('a0', 2), 'a1']); B = sp.Factor('B', ['b0', 'b1'])\nn = _conc(n, 0, {pr + 2})\n"
                       "return _compile(lambda: sp.CrossBlock([A, B], [A], [sp.MinimumTrials(n)]))"),
-                    I('return 0 <= n <= 9'), ok, info={'shape': 'weighted crossed level + MinimumTrials(n)'}))
+                    I(f'return 0 <= n <= {pr + 2}'), ok, info={'shape': 'weighted crossed level + MinimumTrials(n)', 'max': pr + 2}))
     out.append(Case('window', 'st: int',
                     I("A = sp.Factor('A', ['a0', 'a1']); B = sp.Factor('B', ['b0', 'b1'])\nst = _conc(st, 0, 4)\n"
                       "W = sp.Factor('W', [sp.DerivedLevel('w0', sp.Window(lambda a: a[0] == 'a0', [A], 2, 1, st)), sp.ElseLevel('w1')])\n"
@@ -162,8 +163,8 @@ def run(ctx):
     ctx.functions += ['main.synthesize_trials', 'block.build_backend_request', 'constraint.*.apply',
                       'constraint._KInARow._build_variable_sublistss', 'sampling_strategy.random.UCSolutionEnumerator',
                       'sampling_strategy.*.sample', 'tools.unigen.call_unigen_python']
-    ctx.bounds = {'symbolic': 'k in 1..7 (CrossBlock) / 1..6 (Repeat to 7 trials) for each run-length constraint, Pin index -7..7, '
-                              'MinimumTrials 0..9 with a weighted level, window start 0..4', 'corpus': 'fixed corpus + layout/nest designs + seeded random descriptors'}
+    ctx.bounds = {'symbolic': 'k in 1..7 (CrossBlock) / 1..6 (Repeat to 7 trials) for each run-length constraint, Pin index -5..5 (thorough -7..7), '
+                              'MinimumTrials 0..7 (thorough 0..9) with a weighted level, window start 0..4', 'corpus': 'fixed corpus + layout/nest designs + seeded random descriptors'}
     ctx.outside += ['SMGen (C29)', 'designs outside the generator space', 'RandomGen runs longer than the per-design time limit']
     ctx.stubs += ['Factor/Level __hash__ = id>>4 under CrossHair']
     ctx.assumptions += ['documented refusals are ValueError/RuntimeError from the constructors']
@@ -175,5 +176,5 @@ def run(ctx):
     ds = designs(ctx.tier, ctx.seed) + c14.extra_designs() + c25.nest_designs(ctx.tier, ctx.seed)
     res = pmap(ctx, synth, ds)
     ctx.extra['design_outcomes'] = {str(k): res.count(k) for k in set(res)}
-    run_cases(ctx, HEADER, shapes(ctx.tier), timeout=600 if ctx.tier == 'thorough' else 70, path_timeout=40, module_tag='c08',
+    run_cases(ctx, HEADER, shapes(ctx.tier), timeout=600 if ctx.tier == 'thorough' else 110, path_timeout=40, module_tag='c08',
               keyfn=lambda c, kw: f"symbolic:{c.info['shape']}")
